@@ -9,4 +9,4 @@ for c in C01 C02 C03 C04 C05 C06 C07 C08 C09 C10 C11 C12 C13 C14 C15 C16 C17 C19
   ./check "$c" > /tmp/ref_out.txt 2>&1
   if [ $? -ne 0 ]; then echo "  ALARM $c:"; grep -E "^  [A-Za-z-]+:|anchor" /tmp/ref_out.txt | cut -c1-330 | head -6; fi
 done
-git -C /repo checkout -- .
+git -C /repo checkout -- . && git -C /repo clean -fdq src
